@@ -380,9 +380,16 @@ func main() {
 			{"é\xff", 0, 0, "RRR"},
 			{"\\\\\\\\\\$x", 1, 0, "RRRRRRRRR"},
 			{"\\\\\\\\\\\\\\$x", 2, 1, "RRRRRRRRRRR"},
+			{"a\r\nb\r\n", 0, 0, "RRRRRR"},
+			{"~~x} ^^y}", 0, 0, "TRTRRRRTRTRRRR"},
+			{strings.Repeat("a", 1017) + "<1-10> x", 0, 0, strings.Repeat("R", 1018) + "ZRRRRRRRRRR"},
+			{strings.Repeat("a", 1021) + "😀é", 0, 0, strings.Repeat("R", 1026)},
 		} {
-			for _, sc := range [][]int{nil, hxreader.Ones(len(w.in))} {
-				for _, eager := range []bool{false, true} {
+			for si, sc := range [][]int{nil, hxreader.Ones(len(w.in))} {
+				for ei, eager := range []bool{false, true} {
+					if len(w.in) > 500 && si != ei {
+						continue // long witnesses: whole reads, and one-byte reads with data+EOF
+					}
 					hx.Emit(traceCase(w.in, sc, eager, w.obq, w.obqd, w.script))
 				}
 			}
@@ -398,6 +405,12 @@ func main() {
 			if len(row.Fails) > 0 {
 				nfail++
 				hx.Emit(row)
+			}
+		}
+		// pinned regression inputs first: every seed and tier, every split point
+		for _, it := range hxreader.Regress("c07") {
+			for _, l := range it.Langs {
+				emit(searchInput(r, it.Src, l, true, 3))
 			}
 		}
 		// quick: a third of the corpus (rotated by the seed) in all variants, all split points of
